@@ -51,7 +51,7 @@
 (*   - SchemeBound / StripOnRedirect / HonorsHost model candidate repairs  *)
 (*     (all FALSE = the code as it is today)                               *)
 (***************************************************************************)
-EXTENDS Naturals, Sequences, FiniteSets, TLC
+EXTENDS AuthObl, Naturals, Sequences, FiniteSets, TLC
 
 CONSTANTS
   HonorsHost,       \* AuthCreds returns credentials only for the clientHost's own hostname
@@ -74,6 +74,7 @@ VARIABLES
   rq,      \* registry request in flight: [to, sch, az, ini, strip]
   tk,      \* token request in flight: [stage, to, sch, secs]
   gc,      \* continuation of a GenerateAuth that needs the network: [ctx, key, good, nto, nsch, copied]
+  loc,     \* upload location: <<host, scheme>> of the final URL of the last POST / PATCH (blobGetUploadURL)
   au,      \* handlers: <<clientHost, repoKey, urlHost, type>> -> handler
   nf,      \* faults used
   named,   \* history: <<host, realm host>> named in challenges
@@ -81,8 +82,8 @@ VARIABLES
   wire,    \* history: messages sent (outside the VIEW)
   script   \* history: replies chosen by the servers (outside the VIEW)
 
-vars == <<cf, pc, ph, hosts, cur, rq, tk, gc, au, nf, named, leaks, wire, script>>
-View == <<cf, pc, ph, hosts, cur, rq, tk, gc, au, nf, named, leaks>>
+vars == <<cf, pc, ph, hosts, cur, rq, tk, gc, loc, au, nf, named, leaks, wire, script>>
+View == <<cf, pc, ph, hosts, cur, rq, tk, gc, loc, au, nf, named, leaks>>
 
 Regs == {"A", "B", "M"}
 TokOf(h) == CASE h = "A" -> "Ta" [] h = "B" -> "Tb" [] h = "M" -> "Tm" [] OTHER -> "X"
@@ -93,7 +94,7 @@ None == <<>>
 Pub == <<"pub">>                 \* token issued to an anonymous request: not a secret
 IsSecret(s) == s # None /\ s # Pub
 Owner(s) == s[2]
-NoRq == [to |-> "", sch |-> "", az |-> None, ini |-> "", strip |-> FALSE]
+NoRq == [to |-> "", sch |-> "", az |-> None, ini |-> "", strip |-> FALSE, brk |-> FALSE]
 NoTk == [stage |-> "", to |-> "", sch |-> "", secs |-> {}]
 NoGc == [ctx |-> "", key |-> <<>>, good |-> FALSE, nto |-> "", nsch |-> "", copied |-> None]
 
@@ -105,16 +106,29 @@ HasIdt(k) == k \in {"tok", "uptok"}
 (***************************************************************************)
 S(reg, repo, meth, obj, mir, direct, onok, onfail) ==
   [reg |-> reg, repo |-> repo, meth |-> meth, obj |-> obj, mir |-> mir, direct |-> direct,
-   onok |-> onok, onfail |-> onfail]
+   onok |-> onok, onfail |-> onfail, ign |-> FALSE]
+Ign(st) == [st EXCEPT !.ign = TRUE]     \* Req.IgnoreErr (anonymous blob mount): a back-off drops the host
 Ext == <<cf.extHost, cf.extSch>>
-\* chain copying blob `o` from A to B starting at step n; `next` is where the op continues
+Loc == <<"loc">>                        \* Req.DirectURL = the upload location
+\* Req.BodyBytes requests install a GetBody that returns the already drained reader: a 307 cannot
+\* re-send the body (manifest PUT)
+NoRebody(st) == st.meth = "PUT" /\ st.obj = "m"
+\* blob.go:BlobCopy, chain copying blob `o` from A to B in steps n..n+9; `next` is where the op continues
 Chain(o, n, next, ext) ==
-  << S("B", "r1", "HEAD", o, FALSE, <<>>, next, n + 1),        \* BlobCopy: BlobHead on the target
+  << S("B", "r1", "HEAD", o, FALSE, <<>>, next, n + 1),        \* BlobHead on the target: exists = skip
      S("A", "r1", "GET", o, TRUE, <<>>, n + 3, IF ext THEN n + 2 ELSE 0),
      S("A", "r1", "GET", o, FALSE, IF ext THEN Ext ELSE <<>>, n + 3, 0),  \* external URL fall back
-     S("B", "r1", "POST", o, FALSE, <<>>, n + 5, n + 4),       \* anonymous mount attempt
+     Ign(S("B", "r1", "POST", o, FALSE, <<>>, n + 5, n + 4)),  \* anonymous mount attempt
      S("B", "r1", "POST", o, FALSE, <<>>, n + 5, 0),           \* blobGetUploadURL
-     S("B", "r1", "PUT", o, FALSE, <<>>, next, 0) >>
+     S("B", "r1", "PUT", o, FALSE, Loc, next, IF ext THEN 0 ELSE n + 6),   \* blobPutUploadFull
+     S("A", "r1", "GET", o, TRUE, <<>>, n + 7, n + 9),         \* Seek(0) on the source reader = new GET
+     S("B", "r1", "PATCH", o, FALSE, Loc, n + 8, n + 9),       \* blobPutUploadChunked
+     S("B", "r1", "PUT", o, FALSE, Loc, next, n + 9),
+     S("B", "r1", "DELETE", o, FALSE, Loc, 0, 0) >>            \* blobUploadCancel
+CopyHead ==   \* image.go:imageCopyOpt: HEAD on the target; when it exists compare with a HEAD of the source
+  << S("B", "r1", "HEAD", "m", FALSE, <<>>, 2, 3),
+     S("A", "r1", "HEAD", "m", TRUE, <<>>, 99, 0),
+     S("A", "r1", "GET", "m", TRUE, <<>>, 4, 0) >>
 Prog(op) ==
   CASE op = "mget"  -> << S("A", "r1", "GET", "m", TRUE, <<>>, 2, 0) >>
     [] op = "mhead" -> << S("A", "r1", "HEAD", "m", TRUE, <<>>, 2, 0) >>
@@ -125,26 +139,25 @@ Prog(op) ==
     [] op = "ext"   -> << S("A", "r1", "GET", "x", TRUE, <<>>, 3, 2),
                           S("A", "r1", "GET", "x", FALSE, Ext, 3, 0) >>
     [] op = "mput"  -> << S("A", "r1", "PUT", "m", FALSE, <<>>, 2, 0) >>
-    [] op = "bput"  -> << S("A", "r1", "POST", "u", FALSE, <<>>, 3, 2),
-                          S("A", "r1", "POST", "u", FALSE, <<>>, 3, 0),
-                          S("A", "r1", "PUT", "u", FALSE, <<>>, 4, 0) >>
-    [] op = "copy"  -> << S("B", "r1", "HEAD", "m", FALSE, <<>>, 2, 2),
-                          S("A", "r1", "GET", "m", TRUE, <<>>, 3, 0) >>
-                       \o Chain("c", 3, 9, FALSE)
-                       \o << S("B", "r1", "PUT", "m", FALSE, <<>>, 10, 0) >>
-    [] op = "copyext" -> << S("B", "r1", "HEAD", "m", FALSE, <<>>, 2, 2),
-                            S("A", "r1", "GET", "m", TRUE, <<>>, 3, 0) >>
-                       \o Chain("c", 3, 9, FALSE)
-                       \o Chain("x", 9, 15, TRUE)
-                       \o << S("B", "r1", "PUT", "m", FALSE, <<>>, 16, 0) >>
+    [] op = "bput"  -> << Ign(S("A", "r1", "POST", "u", FALSE, <<>>, 3, 2)),   \* anonymous mount
+                          S("A", "r1", "POST", "u", FALSE, <<>>, 3, 0),        \* blobGetUploadURL
+                          S("A", "r1", "PUT", "u", FALSE, Loc, 99, 4),         \* blobPutUploadFull
+                          S("A", "r1", "PATCH", "u", FALSE, Loc, 5, 6),        \* blobPutUploadChunked
+                          S("A", "r1", "PUT", "u", FALSE, Loc, 99, 6),
+                          S("A", "r1", "DELETE", "u", FALSE, Loc, 0, 0) >>     \* blobUploadCancel
+    [] op = "copy"  -> CopyHead \o Chain("c", 4, 14, FALSE)
+                       \o << S("B", "r1", "PUT", "m", FALSE, <<>>, 99, 0) >>
+    [] op = "copyext" -> CopyHead \o Chain("c", 4, 14, FALSE) \o Chain("x", 14, 24, TRUE)
+                       \o << S("B", "r1", "PUT", "m", FALSE, <<>>, 99, 0) >>
 P == Prog(cf.op)
-Running == pc \in 1..Len(P)
+Running == pc \in 1..Len(P)      \* 0 = failed, 99 = succeeded
 Step == P[pc]
-\* what serving the request normally amounts to
-Natural(st, clientHost, to) ==
-  IF to # clientHost \/ st.direct # <<>> THEN "200"
-  ELSE IF clientHost = "B" /\ st.meth = "HEAD" THEN "404"
-  ELSE IF clientHost \in {"A", "M"} /\ st.obj = "x" THEN "404"
+\* what serving the request normally amounts to (content of the model hosts: B is empty, the
+\* external layer x is absent from A and M, every other host has everything)
+Natural(st, to) ==
+  IF to = "B" THEN (IF st.meth \in {"HEAD", "GET"} THEN "404" ELSE "200")
+  ELSE IF st.direct = Loc THEN (IF to = loc[1] THEN "200" ELSE "404")   \* the session lives where it was opened
+  ELSE IF st.obj = "x" /\ to \in {"A", "M"} /\ ~(st.direct # <<>> /\ st.direct[1] = "A") THEN "404"
   ELSE "200"
 
 (***************************************************************************)
@@ -157,7 +170,8 @@ Has(a, k) == k \in DOMAIN a
 Put(a, k, v) == [x \in DOMAIN a \cup {k} |-> IF x = k THEN v ELSE a[x]]
 Acts == IF Step.meth \in {"GET", "HEAD"} THEN {"pull"} ELSE {"pull", "push"}
 ScopeOf == {<<Step.repo, a>> : a \in Acts}
-URL == IF Step.direct # <<>> THEN Step.direct
+URL == IF Step.direct = Loc THEN loc
+       ELSE IF Step.direct # <<>> THEN Step.direct
        ELSE <<H, IF cf.tls[H] THEN "https" ELSE "http">>
 CredKind(h, asked) == IF HonorsHost /\ asked # h THEN "none" ELSE cf.cred[h]
 NewBasic == [realm |-> "", svc |-> "", sc |-> {}, tok |-> None, rt |-> None]
@@ -180,10 +194,11 @@ UR(a, uh, sch) ==
 (* History                                                                 *)
 (***************************************************************************)
 OwnersOf(secs) == {Owner(s) : s \in {x \in secs : IsSecret(x)}}
+TlsHosts == {r \in Regs : cf.tls[r]}
+\* the obligations are those of the property monitor (AuthObl.tla), evaluated on every message
 NewLeaks(to, sch, secs, via) ==
-  {[k |-> "O1", o |-> Owner(s), to |-> to, via |-> via] :
-      s \in {x \in secs : IsSecret(x) /\ Owner(x) # to /\ <<Owner(x), to>> \notin named}}
-  \cup (IF sch = "http" /\ to \in Regs /\ cf.tls[to] /\ OwnersOf(secs) # {}
+  {[k |-> "O1", o |-> o, to |-> to, via |-> via] : o \in O1Bad(named, OwnersOf(secs), to)}
+  \cup (IF O2Bad(TlsHosts, sch, to, OwnersOf(secs))
         THEN {[k |-> "O2", o |-> to, to |-> to, via |-> via]} ELSE {})
 Msg(to, sch, secs, via) ==
   /\ leaks' = leaks \cup NewLeaks(to, sch, secs, via)
@@ -198,8 +213,8 @@ Via(to, copied) ==
 (* Sending                                                                 *)
 (***************************************************************************)
 \* put a registry request on the wire
-SendRq(to, sch, az, ini, strip, copied) ==
-  /\ rq' = [to |-> to, sch |-> sch, az |-> az, ini |-> ini, strip |-> strip]
+SendRq(to, sch, az, ini, strip, copied, brk) ==
+  /\ rq' = [to |-> to, sch |-> sch, az |-> az, ini |-> ini, strip |-> strip, brk |-> brk]
   /\ Msg(to, sch, {az}, Via(to, copied))
   /\ ph' = "wait"
   /\ tk' = NoTk /\ gc' = NoGc
@@ -224,18 +239,20 @@ BeginGen(a, k, ctx, good, nto, nsch, copied) ==
 (***************************************************************************)
 Finish(ok) ==
   /\ pc' = IF ok THEN Step.onok ELSE Step.onfail
+  /\ loc' = IF ok /\ Step.meth \in {"POST", "PATCH"} THEN <<rq.to, rq.sch>> ELSE loc
   /\ ph' = "idle" /\ hosts' = <<>> /\ cur' = 1
   /\ rq' = NoRq /\ tk' = NoTk /\ gc' = NoGc
 DropHost ==   \* dropHost: the host is removed, the loop goes on (or ends with an error)
   LET hs == SubSeq(hosts, 1, cur - 1) \o SubSeq(hosts, cur + 1, Len(hosts)) IN
   IF hs = <<>> THEN Finish(FALSE)
   ELSE /\ hosts' = hs /\ cur' = IF cur > Len(hs) THEN 1 ELSE cur
-       /\ ph' = "attempt" /\ rq' = NoRq /\ tk' = NoTk /\ gc' = NoGc /\ UNCHANGED pc
+       /\ ph' = "attempt" /\ rq' = NoRq /\ tk' = NoTk /\ gc' = NoGc /\ UNCHANGED <<pc, loc>>
 NextHost ==   \* backoff without dropping: curHost++
   /\ cur' = IF cur + 1 > Len(hosts) THEN 1 ELSE cur + 1
-  /\ ph' = "attempt" /\ rq' = NoRq /\ tk' = NoTk /\ gc' = NoGc /\ UNCHANGED <<pc, hosts>>
+  /\ ph' = "attempt" /\ rq' = NoRq /\ tk' = NoTk /\ gc' = NoGc /\ UNCHANGED <<pc, hosts, loc>>
+Backoff == IF Step.ign THEN DropHost ELSE NextHost     \* Req.IgnoreErr: no back-off, the host is dropped
 RetryHost ==  \* retryHost after a good challenge
-  /\ ph' = "attempt" /\ rq' = NoRq /\ tk' = NoTk /\ gc' = NoGc /\ UNCHANGED <<pc, hosts, cur>>
+  /\ ph' = "attempt" /\ rq' = NoRq /\ tk' = NoTk /\ gc' = NoGc /\ UNCHANGED <<pc, hosts, cur, loc>>
 
 (***************************************************************************)
 (* Client actions                                                          *)
@@ -244,12 +261,12 @@ StartDo ==
   /\ ph = "idle" /\ Running
   /\ hosts' = IF Step.mir /\ cf.mirror /\ Step.reg = "A" THEN <<"M", "A">> ELSE <<Step.reg>>
   /\ cur' = 1 /\ ph' = "attempt"
-  /\ UNCHANGED <<cf, pc, rq, tk, gc, au, nf, named, leaks, wire, script>>
+  /\ UNCHANGED <<cf, pc, rq, tk, gc, loc, au, nf, named, leaks, wire, script>>
 
 End ==
   /\ ph = "idle" /\ ~Running
   /\ ph' = "end"
-  /\ UNCHANGED <<cf, pc, hosts, cur, rq, tk, gc, au, nf, named, leaks, wire, script>>
+  /\ UNCHANGED <<cf, pc, hosts, cur, rq, tk, gc, loc, au, nf, named, leaks, wire, script>>
 
 \* Auth.AddScope(h.Hostname, docker scope): only a bearer handler keyed by the clientHost's own name reacts
 AddScope(a) ==
@@ -264,12 +281,13 @@ Attempt ==
          u == URL
          r == UR(a1, u[1], u[2])
      IN /\ au' = a1
-        /\ CASE r = "none"  -> SendRq(u[1], u[2], None, u[1], FALSE, FALSE) /\ UNCHANGED <<pc, hosts, cur>>
-             [] r = "basic" -> SendRq(u[1], u[2], <<"cred", H>>, u[1], FALSE, FALSE) /\ UNCHANGED <<pc, hosts, cur>>
-             [] r = "token" -> SendRq(u[1], u[2], a1[Key(u[1], "bearer")].tok, u[1], FALSE, FALSE)
-                               /\ UNCHANGED <<pc, hosts, cur>>
+        /\ CASE r = "none"  -> SendRq(u[1], u[2], None, u[1], FALSE, FALSE, FALSE) /\ UNCHANGED <<pc, hosts, cur, loc>>
+             [] r = "basic" -> SendRq(u[1], u[2], <<"cred", H>>, u[1], FALSE, FALSE, FALSE)
+                               /\ UNCHANGED <<pc, hosts, cur, loc>>
+             [] r = "token" -> SendRq(u[1], u[2], a1[Key(u[1], "bearer")].tok, u[1], FALSE, FALSE, FALSE)
+                               /\ UNCHANGED <<pc, hosts, cur, loc>>
              [] r = "gen"   -> BeginGen(a1, Key(u[1], "bearer"), "attempt", FALSE, u[1], u[2], None)
-                               /\ UNCHANGED <<pc, hosts, cur, rq>>
+                               /\ UNCHANGED <<pc, hosts, cur, rq, loc>>
              [] r = "err"   -> DropHost /\ UNCHANGED <<leaks, wire>>
   /\ UNCHANGED <<cf, nf, named, script>>
 
@@ -280,16 +298,17 @@ GenOK(a, tokv) ==   \* GenerateAuth returned "Bearer tokv"
   CASE gc.ctx \in {"attempt", "redirect"} ->
          /\ rq' = [to |-> gc.nto, sch |-> gc.nsch, az |-> tokv,
                    ini |-> IF gc.ctx = "attempt" THEN gc.nto ELSE rq.ini,
-                   strip |-> IF gc.ctx = "attempt" THEN FALSE ELSE rq.strip]
+                   strip |-> IF gc.ctx = "attempt" THEN FALSE ELSE rq.strip,
+                   brk |-> gc.ctx = "redirect" /\ NoRebody(Step)]
          /\ Msg(gc.nto, gc.nsch, {tokv}, Via(gc.nto, FALSE))
          /\ ph' = "wait" /\ tk' = NoTk /\ gc' = NoGc
-         /\ UNCHANGED <<pc, hosts, cur>>
+         /\ UNCHANGED <<pc, hosts, cur, loc>>
     [] gc.ctx = "race" ->
          /\ (IF gc.good \/ rq.az # tokv THEN RetryHost ELSE DropHost)
          /\ UNCHANGED <<leaks, wire>>
 GenFail ==
   /\ CASE gc.ctx = "attempt" -> DropHost                  \* UpdateRequest error wraps ErrHTTPUnauthorized
-       [] gc.ctx = "redirect" -> NextHost                 \* checkRedirect error = failed round trip: back off
+       [] gc.ctx = "redirect" -> Backoff                  \* checkRedirect error = failed round trip: back off
        [] gc.ctx = "race" -> IF gc.good THEN RetryHost ELSE DropHost
   /\ UNCHANGED <<leaks, wire>>
 
@@ -309,7 +328,7 @@ TokReply ==
                     LET secs == TokSecs(au, k, "get") IN
                     /\ tk' = [tk EXCEPT !.stage = "get", !.secs = secs]
                     /\ Msg(tk.to, tk.sch, secs, IF k[3] # k[1] THEN "foreign-handler" ELSE "own-handler")
-                    /\ UNCHANGED <<au, pc, ph, hosts, cur, rq, gc>>
+                    /\ UNCHANGED <<au, pc, ph, hosts, cur, rq, gc, loc>>
                [] r = "deny" /\ tk.stage = "get" -> au' = au /\ GenFail
                [] r = "err" -> au' = au /\ GenFail
   /\ UNCHANGED <<cf, named>>
@@ -322,16 +341,22 @@ R0(t) == [t |-> t, c |-> "", realm |-> "", rs |-> "", svc |-> "", to |-> "", ts 
 Budget == nf < MaxFaults
 
 ReplyNatural ==
-  /\ ph = "wait"
+  /\ ph = "wait" /\ ~rq.brk
   /\ Rec(R0("ok"))
-  /\ IF Natural(Step, H, rq.to) = "200" THEN Finish(TRUE) ELSE DropHost
+  /\ IF Natural(Step, rq.to) = "200" THEN Finish(TRUE) ELSE DropHost
   /\ UNCHANGED <<cf, au, nf, named, leaks, wire>>
 
+\* the redirected request could not re-send its body: the round trip fails after the headers went out
+ReplyBroken ==
+  /\ ph = "wait" /\ rq.brk
+  /\ Backoff
+  /\ UNCHANGED <<cf, au, nf, named, leaks, wire, script>>
+
 ReplyFault ==
-  /\ ph = "wait" /\ Budget
+  /\ ph = "wait" /\ Budget /\ ~rq.brk
   /\ \E f \in FaultKinds :
        /\ Rec(R0(f))
-       /\ IF f = "nf" THEN DropHost ELSE NextHost
+       /\ IF f = "nf" THEN DropHost ELSE Backoff
   /\ nf' = nf + 1
   /\ UNCHANGED <<cf, au, named, leaks, wire>>
 
@@ -371,7 +396,7 @@ HBearer(a, c, prev) ==
                 good |-> TRUE, err |-> FALSE, gen |-> FALSE]
 
 Reply401 ==
-  /\ ph = "wait" /\ Budget
+  /\ ph = "wait" /\ Budget /\ ~rq.brk
   /\ \E c \in Chals(rq.to) :
        /\ Rec(c)
        /\ named' = IF c.c \in {"t", "bt"} THEN named \cup {<<rq.to, c.realm>>} ELSE named
@@ -386,7 +411,7 @@ Reply401 ==
                  LET t == HBearer(au, c, rq.az) IN
                  /\ au' = t.au
                  /\ IF t.gen THEN BeginGen(t.au, Key(rq.to, "bearer"), "race", FALSE, "", "", None)
-                                  /\ UNCHANGED <<pc, hosts, cur, rq>>
+                                  /\ UNCHANGED <<pc, hosts, cur, rq, loc>>
                     ELSE (IF t.good /\ ~t.err THEN RetryHost ELSE DropHost) /\ UNCHANGED <<leaks, wire>>
             [] c.c = "bt" ->                           \* Basic first, then Bearer
                  LET b == HBasic(au, c, rq.az)
@@ -394,7 +419,7 @@ Reply401 ==
                  IN /\ au' = t.au
                     /\ IF t.err THEN DropHost /\ UNCHANGED <<leaks, wire>>
                        ELSE IF t.gen THEN BeginGen(t.au, Key(rq.to, "bearer"), "race", b.good, "", "", None)
-                                          /\ UNCHANGED <<pc, hosts, cur, rq>>
+                                          /\ UNCHANGED <<pc, hosts, cur, rq, loc>>
                        ELSE (IF b.good \/ t.good THEN RetryHost ELSE DropHost) /\ UNCHANGED <<leaks, wire>>
   /\ nf' = nf + 1
   /\ UNCHANGED cf
@@ -402,7 +427,7 @@ Reply401 ==
 \* 307: net/http copies the headers of the first request (sensitive ones only inside the first
 \* host's domain), then checkRedirect runs Auth.UpdateRequest of the SAME clientHost for the new host
 ReplyRedirect ==
-  /\ ph = "wait" /\ Budget
+  /\ ph = "wait" /\ Budget /\ ~rq.brk
   /\ \E t \in RedirTo :
        LET to == t[1]
            sch == t[2]
@@ -413,27 +438,28 @@ ReplyRedirect ==
            r == UR(au, to, sch)
        IN /\ Rec([t |-> "rd", c |-> "", realm |-> "", rs |-> "", svc |-> "", to |-> to, ts |-> sch])
           /\ CASE r = "none"  -> SendRq(to, sch, IF Bound(H, to, sch) THEN copied ELSE None, rq.ini, strip,
-                                        copied # None)
-                                 /\ UNCHANGED <<pc, hosts, cur>>
-               [] r = "basic" -> SendRq(to, sch, <<"cred", H>>, rq.ini, strip, FALSE) /\ UNCHANGED <<pc, hosts, cur>>
-               [] r = "token" -> SendRq(to, sch, au[Key(to, "bearer")].tok, rq.ini, strip, FALSE)
-                                 /\ UNCHANGED <<pc, hosts, cur>>
+                                        copied # None, NoRebody(Step))
+                                 /\ UNCHANGED <<pc, hosts, cur, loc>>
+               [] r = "basic" -> SendRq(to, sch, <<"cred", H>>, rq.ini, strip, FALSE, NoRebody(Step))
+                                 /\ UNCHANGED <<pc, hosts, cur, loc>>
+               [] r = "token" -> SendRq(to, sch, au[Key(to, "bearer")].tok, rq.ini, strip, FALSE, NoRebody(Step))
+                                 /\ UNCHANGED <<pc, hosts, cur, loc>>
                [] r = "gen"   -> BeginGen(au, Key(to, "bearer"), "redirect", FALSE, to, sch, copied)
                                  /\ rq' = [rq EXCEPT !.strip = strip]
-                                 /\ UNCHANGED <<pc, hosts, cur>>
-               [] r = "err"   -> NextHost /\ UNCHANGED <<leaks, wire>>
+                                 /\ UNCHANGED <<pc, hosts, cur, loc>>
+               [] r = "err"   -> Backoff /\ UNCHANGED <<leaks, wire>>
   /\ nf' = nf + 1
   /\ UNCHANGED <<cf, au, named>>
 
 Init ==
   /\ cf \in Confs
   /\ pc = 1 /\ ph = "idle" /\ hosts = <<>> /\ cur = 1
-  /\ rq = NoRq /\ tk = NoTk /\ gc = NoGc
+  /\ rq = NoRq /\ tk = NoTk /\ gc = NoGc /\ loc = <<>>
   /\ au = <<>> /\ nf = 0 /\ named = {} /\ leaks = {} /\ wire = <<>> /\ script = <<>>
 
 Next ==
   \/ StartDo \/ Attempt \/ TokReply
-  \/ ReplyNatural \/ ReplyFault \/ Reply401 \/ ReplyRedirect
+  \/ ReplyNatural \/ ReplyBroken \/ ReplyFault \/ Reply401 \/ ReplyRedirect
   \/ End
 
 Spec == Init /\ [][Next]_vars
@@ -453,7 +479,7 @@ S3Repaired == HonorsHost => \A l \in leaks : ~(l.k = "O1" /\ l.via = "foreign-ha
 SchemeRepaired == (SchemeBound /\ HonorsHost) => \A l \in leaks : l.k # "O2"
 CopyRepaired == StripOnRedirect => \A l \in leaks : l.via # "copied" \/ l.k = "O2"
 TypeOK ==
-  /\ pc \in 0..(Len(P) + 1)
+  /\ pc \in 0..(Len(P) + 1) \cup {99}
   /\ ph \in {"idle", "attempt", "gen", "wait", "end"}
   /\ nf \in 0..MaxFaults
   /\ ph \in {"attempt", "wait", "gen"} => cur \in 1..Len(hosts)
